@@ -46,6 +46,9 @@ MIN_ENTRY = ('minentry',)
 MIN_EVENT = ('minevent',)
 ID_K = ('idK',)            # the id of the event under analysis
 ID_O = ('idO',)            # the id of some other event
+SKEY = ('skey',)            # the entry stored on the list for the event under analysis (equal to KEY, component by component)
+STORED = ('stored',)        # the event object inside that entry: equal to the handle passed in; the same object only in the `same object` cases
+OENTRY = ('oentry',)        # the entry of some other event
 UNK = ('unkint',)          # an integer this domain does not know (a count kept for another event)
 UBOOL = ('ubool',)         # a truth value this domain does not know: both branches are followed and must agree on everything tracked
 
@@ -67,6 +70,7 @@ class Interp:
         self.comp_of = None                  # (expr, event name) -> 'id' | 'time' | ...  for attribute reads of the event
         self.idx = {}                        # index field -> count recorded for the id of the event under analysis
         self.min_is_K = False
+        self.same_object = True              # the handle passed in is the very object on the list (False: an equal copy, e.g. unpickled)
 
     def _state(self):
         return (self.present, self.removed, self.case, tuple(sorted(self.idx.items())), self.min_is_K)
@@ -255,8 +259,10 @@ class Interp:
             return v[1]
         if isinstance(v, tuple) and v[0] == 'int':
             return v[1] != 0
-        if v in (POS, LEN, KEY, EVENT, OTHER, MIN_ENTRY, MIN_EVENT):
+        if v in (POS, LEN, KEY, EVENT, OTHER, MIN_ENTRY, MIN_EVENT, SKEY, STORED, OENTRY):
             return True
+        if isinstance(v, tuple) and v and v[0] == 'elems':
+            return bool(v[1])
         if v in (UNK, UBOOL):
             raise Unsupported('a value this domain does not know decides a condition')
         if v == LIST:
@@ -280,7 +286,12 @@ class Interp:
         if isinstance(e, ast.Name):
             if e.id in env:
                 return env[e.id]
+            if e.id == 'self':
+                return ('selfobj',)
             return OTHER
+        if isinstance(e, (ast.GeneratorExp, ast.ListComp)) and len(e.generators) == 1 and not e.generators[0].ifs and isinstance(e.generators[0].target, ast.Name):
+            g = e.generators[0]
+            return ('elems', [self.ev(e.elt, {**env, g.target.id: x}) for x in self.elements(self.ev(g.iter, env), env)])
         if isinstance(e, ast.Tuple):
             evn = next((k for k, v in env.items() if v == EVENT), None)
             if evn is not None and self.is_key(e, evn):
@@ -329,6 +340,12 @@ class Interp:
                 if i[1] == self.id_index and self.id_index is not None:
                     return ID_K if self.min_is_K else ID_O
                 return MIN_EVENT if i[1] == self.ev_index else ('component', i[1])
+            if base == SKEY and isinstance(i, tuple) and i[0] == 'int':
+                if i[1] == self.id_index and self.id_index is not None:
+                    return ID_K
+                return STORED if i[1] == self.ev_index else OTHER
+            if base == OENTRY and isinstance(i, tuple) and i[0] == 'int':
+                return ID_O if (i[1] == self.id_index and self.id_index is not None) else OTHER
             if base == KEY and isinstance(i, tuple) and i[0] == 'int':
                 if i[1] == self.id_index and self.id_index is not None:
                     return ID_K
@@ -352,6 +369,36 @@ class Interp:
             env[e.target.id] = v
             return v
         raise Unsupported(f'expression `{unparse(e)[:40]}`')
+
+    def elements(self, it, env):
+        """abstract elements an iterable evaluates to (order does not matter for any / all)"""
+        if it == LIST:
+            els = []
+            if self.present:
+                els.append(SKEY)
+            if self.case == 'absent' or (self.case in ('first', 'later', 'somewhere') and self.others is not False):
+                els.append(OENTRY)
+            return els
+        if it == ('selfobj',):
+            r = self.prog.resolve(self.cls, '__iter__')
+            fn = r[1] if r else None
+            if fn is None:
+                raise Unsupported('iteration over self without __iter__')
+            body = body_of(fn)
+            if len(body) == 1 and isinstance(body[0], ast.Return) and isinstance(body[0].value, (ast.GeneratorExp, ast.ListComp)) and len(body[0].value.generators) == 1 \
+                    and not body[0].value.generators[0].ifs and isinstance(body[0].value.generators[0].target, ast.Name):
+                g = body[0].value.generators[0]
+                return [self.ev(body[0].value.elt, {**env, g.target.id: x}) for x in self.elements(self.ev(g.iter, env), env)]
+            if len(body) == 1 and isinstance(body[0], ast.For) and isinstance(body[0].target, ast.Name) and len(body[0].body) == 1 and isinstance(body[0].body[0], ast.Expr) \
+                    and isinstance(body[0].body[0].value, ast.Yield) and body[0].body[0].value.value is not None:
+                f_ = body[0]
+                return [self.ev(f_.body[0].value.value, {**env, f_.target.id: x}) for x in self.elements(self.ev(f_.iter, env), env)]
+            if len(body) == 1 and isinstance(body[0], ast.Return) and isinstance(body[0].value, ast.Call) and unparse(body[0].value.func) == 'iter' and len(body[0].value.args) == 1:
+                return self.elements(self.ev(body[0].value.args[0], env), env)
+            raise Unsupported('__iter__ of another form')
+        if isinstance(it, tuple) and it and it[0] == 'elems':
+            return list(it[1])
+        raise Unsupported('iteration over something else')
 
     @staticmethod
     def _bounds(v):
@@ -386,6 +433,18 @@ class Interp:
             else:
                 raise Unsupported('membership of a non-key')
             return ('bool', r if isinstance(op, ast.In) else not r)
+        objs = (EVENT, STORED, KEY, SKEY, OENTRY, OTHER)
+        if isinstance(op, (ast.Is, ast.IsNot, ast.Eq, ast.NotEq)) and a in objs and b in objs and OTHER not in (a, b) or \
+                (isinstance(op, (ast.Is, ast.IsNot, ast.Eq, ast.NotEq)) and {a, b} <= set(objs) and OTHER in (a, b) and (a, b) != (OTHER, OTHER)):
+            pair = {a, b}
+            if pair in ({EVENT, STORED}, {KEY, SKEY}):
+                equal, same = True, (self.same_object if pair == {EVENT, STORED} else False)
+            elif a == b:
+                equal, same = True, True
+            else:
+                equal, same = False, False          # another event / entry: neither equal (ids are unique) nor identical
+            r = equal if isinstance(op, (ast.Eq, ast.NotEq)) else same
+            return ('bool', r if isinstance(op, (ast.Eq, ast.Is)) else not r)
         if isinstance(op, (ast.Is, ast.IsNot, ast.Eq, ast.NotEq)) and (a == NONE or b == NONE):
             other = b if a == NONE else a
             if other == OTHER:
@@ -457,6 +516,12 @@ class Interp:
             raise Unsupported('len of something else')
         if ft == 'bool' and len(e.args) == 1:
             return ('bool', self.truth(self.ev(e.args[0], env)))
+        if ft in ('any', 'all') and len(e.args) == 1:
+            v = self.ev(e.args[0], env)
+            if not (isinstance(v, tuple) and v and v[0] == 'elems'):
+                v = ('elems', self.elements(v, env))
+            ts = [self.truth(x) for x in v[1]]
+            return ('bool', any(ts) if ft == 'any' else all(ts))
         if ft in ('logger.debug', 'logger.info', 'logger.warning', 'print'):
             return NONE
         if ft in ('heapq.heapify',) and len(e.args) == 1 and self.ev(e.args[0], env) == LIST:
@@ -568,8 +633,10 @@ def check_observers(prog, cls, F, is_key, contains_fn, remove_fn, cfg=None):
     """-> ({'contains': [(case id, description, what is wrong)], 'remove': [...]}, None)  or  (None, reason outside the domain)"""
     problems = {'contains': [], 'remove': []}
     for kind, fn in (('contains', contains_fn), ('remove', remove_fn)):
-        for (cid, desc) in CASES:
+        for (cid, desc, same) in [(c_, d_, True) for (c_, d_) in CASES] + [(c_, d_ + ', and the handle is an equal copy of it (not the same object)', False)
+                                                                             for (c_, d_) in CASES if c_ in ('first', 'later')]:
             it = Interp(prog, cls, F, cid, is_key)
+            it.same_object = same
             _configure(it, cfg)
             try:
                 out = it.run(fn)
